@@ -20,9 +20,9 @@ func init() {
 			"and EntityWithIndex.index is written only by buildRepresentationGroups from the range index of the representations it ranges over together with that iteration's representation; (contained) every call of " +
 			"an Entity resolver method lies in a function that registered its own deferred recover first (resolveEntity / resolveManyEntities run on spawned goroutines), the recovered error reaches the caller " +
 			"through the named error result, and each goroutine reports a failed representation exactly once; (joined) both go statements are accounted by a WaitGroup (C05/wg-accounting is re-run on the federation " +
-			"functions); (slot-ownership) the goroutines write only list[<private index>].",
-		NotDecided:  "which resolver is selected among several keys, that a batch resolver returns one entity per representation in order (positional zip), population of @requires fields — value-level",
-		Assumptions: []string{"the materialised federation configurations (entityresolver incl. multi resolvers, explicit_requires; thorough adds computed_requires and function syntax)"},
+			"functions); (slot-ownership) the goroutines write only list[<private index>]; (requires-own-representation) under computed_requires the representation handed to a @requires resolver is read from the `representations` argument at the entity's own FieldContext Index only.",
+		NotDecided:  "which resolver is selected among several keys, that a batch resolver returns one entity per representation in order (positional zip), population of @requires fields under explicit_requires — value-level",
+		Assumptions: []string{"the materialised federation configurations (entityresolver incl. multi resolvers, explicit_requires, computed_requires; thorough adds function syntax)"},
 	})
 }
 
@@ -229,6 +229,8 @@ func runC20(c *Ctx) {
 		}
 	}
 
+	c20RequiresOwnRepresentation(c, feds)
+
 	c.R.Rule("joined", "the goroutines of __resolve_entities and resolveEntityGroup are accounted by their WaitGroups (same analysis as C05/wg-accounting)", 2*len(feds))
 	for _, g := range feds {
 		for _, name := range []string{"__resolve_entities", "resolveEntityGroup"} {
@@ -251,5 +253,102 @@ func runC20(c *Ctx) {
 				c.R.Bad("gen:"+g.Name+"/"+name, c.pos(fn.Pos()), "spawns goroutines without a WaitGroup")
 			}
 		}
+	}
+}
+
+// c20RequiresOwnRepresentation: under computed_requires the built-in @populateFromRepresentations directive hands a @requires
+// field resolver the representation of the entity being resolved.  The entity's position is FieldContext.Parent.Index — the
+// raw position in the `representations` argument (the result list is never compacted).  In every materialised federation
+// executor: a function that reads the `representations` argument from a field context and indexes it does so only at
+// *fc…Index (a load of a FieldContext's Index field), and neither ranges over nor re-slices the list.
+func c20RequiresOwnRepresentation(c *Ctx, feds []*GenPkg) {
+	c.R.Rule("requires-own-representation", "every element read of the `representations` argument taken from a field context (populateFromRepresentations) is at the index stored in a FieldContext's Index field; the list is not ranged over, re-sliced or filtered first", 1)
+	n := 0
+	for _, g := range feds {
+		for _, fn := range c.genFuncs(g) {
+			for _, b := range fn.Blocks {
+				for _, in := range b.Instrs {
+					lk, ok := in.(*ssa.Lookup)
+					if !ok {
+						continue
+					}
+					if k, isC := an.ConstString(lk.Index); !isC || k != "representations" {
+						continue
+					}
+					// the type-asserted list
+					var lists []ssa.Value
+					for _, r := range an.Referrers(lk) {
+						if ta, isTA := r.(*ssa.TypeAssert); isTA {
+							lists = append(lists, ta)
+							for _, r2 := range an.Referrers(ta) {
+								if ex, isEx := r2.(*ssa.Extract); isEx && ex.Index == 0 {
+									lists = append(lists, ex)
+								}
+							}
+						}
+					}
+					// derived: through local cells and phis
+					derived := map[ssa.Value]bool{}
+					for _, l := range lists {
+						derived[l] = true
+					}
+					for changed := true; changed; {
+						changed = false
+						for v := range derived {
+							for _, r := range an.Referrers(v) {
+								switch x := r.(type) {
+								case *ssa.Phi:
+									if !derived[x] {
+										derived[x], changed = true, true
+									}
+								case *ssa.Store:
+									if x.Val == v && an.IsLocalCell(x.Addr) {
+										for _, ld := range an.CellLoads(x.Addr) {
+											if !derived[ld] {
+												derived[ld], changed = true, true
+											}
+										}
+									}
+								}
+							}
+						}
+					}
+					for v := range derived {
+						for _, r := range an.Referrers(v) {
+							bad, isRead := "", false
+							switch x := r.(type) {
+							case *ssa.IndexAddr:
+								isRead = true
+								okIdx := false
+								for _, d := range an.Defs(x.Index) {
+									if ld, isLd := d.(*ssa.UnOp); isLd && ld.Op == token.MUL {
+										for _, d2 := range an.Defs(ld.X) {
+											if fa, isFA := loadAddr(d2).(*ssa.FieldAddr); isFA && fieldNameOf(fa) == "Index" && strings.HasSuffix(fa.X.Type().String(), "graphql.FieldContext") {
+												okIdx = true
+											}
+										}
+									}
+								}
+								if !okIdx {
+									bad = "the representations list is read at an index that is not the entity's FieldContext Index"
+								}
+							case *ssa.Range:
+								isRead, bad = true, "the representations list is ranged over (entities are matched to representations by something other than the entity's own index)"
+							case *ssa.Slice:
+								isRead, bad = true, "the representations list is re-sliced before the lookup"
+							}
+							if !isRead {
+								continue
+							}
+							n++
+							c.R.Check(bad == "", "gen:"+g.Name+"/"+shortFn(topFn(fn))+"/representation-read", c.ipos(r), "representations[*fc.Parent.Index]", bad+": a @requires resolver can receive the required fields of a different representation than the one its entity's key came from")
+						}
+					}
+				}
+			}
+		}
+	}
+	if n == 0 {
+		c.R.Note("populateFromRepresentations", "-", "no materialised configuration uses computed_requires; nothing to judge")
 	}
 }
